@@ -92,12 +92,23 @@ left with a nil root — only by re-entrant linking (D10, `link_order_dependent`
 is claimed about such a typedef; the linked *values* of constants and defaults are tied to
 `castConst` by the correspondence harness (every generated program, every order) and not by
 a proof, which would need the static NoConstCycle argument that no constant is read while it
-is being linked (the ghost flag `St.reent` marks exactly those reads). With D10 repaired every root is non-nil and
-the hypothesis `alookup … = some (some r)` is always met. -/
+is being linked (the ghost flag `St.reent` marks exactly those reads). Since the repair of D10 a stored nil is no
+longer what callers see: `root_answer_refines_spec`. -/
 theorem link_refines_spec_partial {pre : Bool} {fuel : Nat} {o : Orders} {src : Program} {c : Compiled}
     (h : compileWith pre fuel o src = .ok c) :
     ∀ m n r, alookup (m, n) c.st.root = some (some r) → IsRoot c.prog (.named m n) r :=
   compile_roots_sound h
+
+/-- **What `RootTypeSpec` answers refines the spec, for every visit order** (the observable form of
+the previous theorem, since the repair of finding D10): after a successful compilation under any
+visit orders, whatever `RootTypeSpec` answers for a type — the stored root, or for a typedef whose root
+was pending the end of the chain of targets — is its declarative root. What remains partial: it may
+still answer nil (typedefs that refer to each other directly are rejected by the cycle check; a
+typedef of a module that was never linked has no root). -/
+theorem root_answer_refines_spec {pre : Bool} {fuel : Nat} {o : Orders} {src : Program} {c : Compiled}
+    (h : compileWith pre fuel o src = .ok c) :
+    ∀ t r, rootIn c.prog c.st t = some r → IsRoot c.prog t r :=
+  fun _ _ hr => rootIn_sound (compile_roots_sound h) hr
 
 /-- **Parent services are bound as the spec designates, for every visit order.** After a
 successful compilation every stored `ServiceSpec.Parent` is the service the declared parent
@@ -138,15 +149,38 @@ theorem roots_order_independent_partial {pre₁ pre₂ : Bool} {f₁ f₂ : Nat}
   rw [hp] at i₁
   exact i₁.functional i₂
 
-/-- **Negation on the pinned tree (D10): the result depends on the link order.**
-`typedef B A  typedef C B  struct C {1: optional A a}`: in declaration order `A`'s root is
-the struct `C`; when `B` is linked first, `A.root` is nil. -/
+/-- **Order independence of what `RootTypeSpec` answers.** Two successful compilations of the same
+source under any two visit orders agree on the root of every type for which both answer. (For the
+witness of D10 both answer, and the same: `link_order_dependent`.) -/
+theorem root_answers_order_independent {pre₁ pre₂ : Bool} {f₁ f₂ : Nat} {o₁ o₂ : Orders} {src : Program}
+    {c₁ c₂ : Compiled} (h₁ : compileWith pre₁ f₁ o₁ src = .ok c₁) (h₂ : compileWith pre₂ f₂ o₂ src = .ok c₂)
+    {t r₁ r₂ : LType}
+    (hr₁ : rootIn c₁.prog c₁.st t = some r₁) (hr₂ : rootIn c₂.prog c₂.st t = some r₂) : r₁ = r₂ := by
+  have hp : c₁.prog = c₂.prog := by
+    have a := compileWith_prog h₁
+    have b := compileWith_prog h₂
+    rw [a] at b
+    exact Option.some.inj b
+  have i₁ := root_answer_refines_spec h₁ t r₁ hr₁
+  have i₂ := root_answer_refines_spec h₂ t r₂ hr₂
+  rw [hp] at i₁
+  exact i₁.functional i₂
+
+/-- **The witness of finding D10 (repaired): the stored field still depends on the link order, what
+`RootTypeSpec` answers does not.** `typedef B A  typedef C B  struct C {1: optional A a}`: in
+declaration order `A.root` is the struct `C`; when `B` is linked first, `A.root` is left nil (and
+`rootPending` is set) — and `RootTypeSpec(A)` follows the targets and answers `C` in both orders.
+Before the repair it answered nil in the second order, and code generation failed on it. -/
 theorem link_order_dependent :
     (compile 100 [] progD10).toOption.map (fun c => rootOfTypedef c 0 (nm "A")) =
       some (some (some (.named 0 (nm "C")))) ∧
     (compile 100 [{ types := [nm "B"] }] progD10).toOption.map (fun c => rootOfTypedef c 0 (nm "A")) =
-      some (some none) := by
-  constructor <;> decide +kernel
+      some (some none) ∧
+    (compile 100 [] progD10).toOption.map (fun c => rootSeenOfTypedef c 0 (nm "A")) =
+      some (some (.named 0 (nm "C"))) ∧
+    (compile 100 [{ types := [nm "B"] }] progD10).toOption.map (fun c => rootSeenOfTypedef c 0 (nm "A")) =
+      some (some (.named 0 (nm "C"))) := by
+  refine ⟨?_, ?_, ?_, ?_⟩ <;> decide +kernel
 
 /-- **Negation on the pinned tree (D50): whether the program is accepted depends on the link
 order.** `struct S {1: optional T t; 2: optional E e = 1}  struct T {1: optional S s = {}}
